@@ -124,11 +124,14 @@ def run_shard(desc):
     if kind == "firstuse":
         for h in range(n):
             T = rnd.choice([2, 4, 8, 16])
+            import os
+            if os.environ.get("VERIF_TOOL") == "miri":
+                T = rnd.choice([2, 3])
             plans, exps = [], []
             for t in range(T):
                 m = new_model()
                 plan, ex = [], []
-                kinds = [rnd.choice(KINDS)] + [rnd.choice(KINDS) for _ in range(rnd.randint(3, 10))]
+                kinds = [rnd.choice(KINDS)] + [rnd.choice(KINDS) for _ in range(rnd.randint(3, 10) if os.environ.get("VERIF_TOOL") != "miri" else 2)]
                 for j, k in enumerate(kinds):
                     s, e = step_of_kind(k, t, j, m, rnd)
                     plan.append(s)
@@ -237,7 +240,12 @@ def run_shard(desc):
                 else:
                     tgt.append({"op": "reg_infix", "name": nm, "prec": 115, "type": "CALC", "assoc": "LEFT", "beh": {"id": 8000 + i, "ret": "tag"}})
             plans = [reg_plan_a, reg_plan_b]
+            import os
             iters = 150 if profile == "release" else 80
+            if os.environ.get("VERIF_TOOL") == "miri":
+                iters, E = 4, min(E, 4)
+            elif os.environ.get("VERIF_TOOL"):
+                iters = 40
             for e in range(E):
                 plan = []
                 for it in range(iters):
@@ -329,6 +337,12 @@ def run(rep, tier):
     rep.extra["exhaustive"] = True
     rep.extra["exhaustive_space"] = "forced interleavings: all 6 (A first call) x 5 (stage) x 6 (B first call) = 180 combinations"
     rep.floor = 3000
+
+
+def san_shards(tier):
+    """data races / UB / deadlock: TSan on the native race workloads, Miri on miniatures (each process another schedule)"""
+    return [("tsan", [("firstuse", 200 + i, 12, "tsan") for i in range(16)] + [("forced", i, 16, "tsan") for i in range(16)] + [("stress", 200 + i, 2, "tsan") for i in range(16)]),
+            ("miri", [("firstuse", 300 + i, 2, "miri") for i in range(16)] + [("forced", i, 64, "miri") for i in range(32)] + [("stress", 300 + i, 1, "miri") for i in range(8)])]
 
 
 def replay(path):
